@@ -218,7 +218,7 @@ func c05R2(a *An, rule string, roots []*ssa.Function) {
 					if _, isCall := u.Instr.(*ssa.Call); !isCall {
 						continue
 					}
-					if u.Ctx != v.Ctx || !instrDominates(u.Instr, v.Instr) {
+					if !precedesAlways(u, v) {
 						continue
 					}
 					if containsFn(ro.CloseFns, cal) {
@@ -237,6 +237,20 @@ func c05R2(a *An, rule string, roots []*ssa.Function) {
 	}
 }
 
+// precedesAlways: on every execution that reaches v, u has been executed before. Same function: dominance. Across
+// inlined helpers: u comes earlier in the walk (program order of the inlined code) and v's reaching condition implies
+// u's (atoms are stable within one activation, section 5 of DESIGN.md).
+func precedesAlways(u, v *Visit) bool {
+	if u.Ctx == v.Ctx {
+		return instrDominates(u.Instr, v.Instr)
+	}
+	if u.Seq >= v.Seq {
+		return false
+	}
+	h, _, err := implies(v.Cond, u.Cond)
+	return err == nil && h
+}
+
 // R3: close(done) guarded; Close returns without blocking when already closed.
 func c05R3(a *An) {
 	ro := a.Ro
@@ -251,7 +265,7 @@ func c05R3(a *An) {
 		}
 		n++
 		guarded, _ := v.Cond.everyConj(func(c Conj) bool {
-			return c.has(func(l Lit) bool { return l.Neg && l.A.Kind == AkPred && l.A.Callee != nil && ro.isIsClosed(l.A.Callee) })
+			return c.has(func(l Lit) bool { t, closed := ro.closedLit(l); return t && !closed })
 		})
 		locked := len(v.Must) > 0
 		a.R.ob("C05.R3", shortFn(closeFn)+":close(done)", "close(done) must be dominated by !isClosed() inside the mutex (a second close of a closed channel panics)",
